@@ -146,8 +146,14 @@ func c14Extract(txt *c14Text, s, r string) (vals map[int][]string, problem strin
 	// random(): integer literals of >= 8 digits (template integers are < 10^6)
 	var bigs []int
 	var blobs []c14Tok
-	for i, t := range rt {
+	inInput := map[string]bool{} // large integer literals the input itself contains (too-big randomblob sizes)
+	for _, t := range st {
 		if c14IsBigInt(t) {
+			inInput[t.Text] = true
+		}
+	}
+	for i, t := range rt {
+		if c14IsBigInt(t) && !inInput[t.Text] {
 			bigs = append(bigs, i)
 		}
 		if t.Kind == c14TBlob {
@@ -357,11 +363,11 @@ func c14BlameSite(txt *c14Text, s *c14Site, parseErr bool) (sig, what string) {
 	}
 	switch s.kind() {
 	case "randomblob":
-		if s.InOrderBy {
-			return "C14/unrewritten{fn=randomblob,form=in-order-by}", "randomblob(literal) inside ORDER BY is not rewritten"
-		}
 		if s.NKind != "int" && s.NKind != "zero" {
 			return "C14/unrewritten{fn=randomblob,n=" + s.NKind + "}", "randomblob with a " + s.NKind + " literal n is not rewritten"
+		}
+		if s.InOrderBy {
+			return "C14/unrewritten{fn=randomblob,form=in-order-by}", "randomblob(literal) inside ORDER BY is not rewritten"
 		}
 	case "time":
 		if s.Form != "explicit-now" {
@@ -570,7 +576,56 @@ func c14CheckText(rt *rapid.T, rec *vstat.Rec, txt *c14Text, s, r string, t0, t1
 		if blame == nil {
 			blame = wantCovered[0]
 		}
-		sig, what := c14BlameSite(txt, blame, len(parseFails) > 0)
+		// which feature of that site is responsible? Neutralise one at a time (quoting,
+		// gap, argument spelling); if the call is then rewritten, describe the site by
+		// that feature alone. Otherwise fall back to the static priority.
+		described := blame
+		neutral := func(site *c14Site, quote, gap, arg bool) *c14Site {
+			c := *site
+			if quote {
+				c.Quote, c.NameTxt = "", strings.Trim(site.NameTxt, "\"`[]")
+			}
+			if gap {
+				c.Gap, c.GapKind = "", ""
+			}
+			if arg {
+				switch c.kind() {
+				case "randomblob":
+					c.NKind, c.Args = "int", []string{"4"}
+				case "time":
+					c.Implicit, c.Form = false, "explicit-now"
+					switch c.Fn {
+					case "strftime":
+						c.Args, c.NowIdx = []string{"'%s'", "'now'"}, []int{1}
+					case "timediff":
+						c.Args, c.NowIdx = []string{"'now'", "'2020-01-01'"}, []int{0}
+					default:
+						c.Args, c.NowIdx = []string{"'now'"}, []int{0}
+					}
+				}
+			}
+			return &c
+		}
+		rewrittenWith := func(v *c14Site) bool {
+			variant := txt.render(func(site *c14Site) string {
+				if site == blame {
+					return v.orig()
+				}
+				if !site.Covered {
+					return site.orig()
+				}
+				return "0"
+			})
+			vs := []*proto.Statement{{Sql: variant}}
+			return Process(vs, true, true) == nil && len(c14CoveredCalls(vs[0].Sql)) == 0
+		}
+		for _, f := range [][3]bool{{true, false, false}, {false, true, false}, {false, false, true}} {
+			if rewrittenWith(neutral(blame, f[0], f[1], f[2])) {
+				described = neutral(blame, !f[0], !f[1], !f[2])
+				break
+			}
+		}
+		sig, what := c14BlameSite(txt, described, len(parseFails) > 0)
 		return fail(sig, what, "%s left in the replicated text (%d claimed calls remain):\n in: %s\nout: %s", first.Why, len(rem), s, r)
 	}
 
